@@ -56,9 +56,9 @@ pointers to members of records inside arrays inside records, …
 
 ## Not covered (and why)
 
-* TYPE statements inside procedures / functions: a BYREF parameter's alias slot takes the type of the re-resolved argument reference
-  (`bindParams`) while the type check is made on the value evaluated earlier; with procedure-local types the soundness of that needs
-  "name resolution is stable while the arguments are evaluated", an extra relation through the eight expression-like functions.
+* TYPE statements inside procedures / functions: covered by `Properties/C01Local.lean` (development `Pseudo.NL`); the obstacle noted
+  here earlier — a BYREF parameter's alias slot took the type of the re-resolved argument reference while the type check was made on
+  the value evaluated earlier — was a real defect (`C01.progByrefReresolve`), repaired in the C++ (d712123) and in the model.
 * record bodies with non-literal array bounds: there the statement is FALSE for the model (`C01_counterexample_model_recordCopy`).
 -/
 namespace Pseudo
